@@ -491,3 +491,45 @@ _run_c17c = run
 def run(ctx, R):
     _run_c17c(ctx, R)
     r178(ctx, R)
+
+
+# retried functions that run inside the transaction of their caller
+RETRY_INSIDE_CALLER_TX = {
+    'placement.objects.allocation:_set_allocations':
+        'the allocation write is one transaction with the consumer updates '
+        'of its handler (R18b); its retry re-runs it inside that '
+        'transaction',
+}
+
+
+def r179(ctx, R):
+    """A retry applies its function exactly once only if each attempt is a
+    transaction of its own: the retried function is the outermost
+    transaction scope on every way it is reached.  Called inside an open
+    transaction its writer scope merely joins that one - a deadlock the
+    database answered by rolling the whole transaction back loses what the
+    caller had written before (the first of two start-up synchronisations,
+    its "done" flag already set), and the retry completes on top of it."""
+    prog = ctx.prog
+    n = 0
+    for q in sorted(EXPECTED_RETRY):
+        if q in RETRY_INSIDE_CALLER_TX:
+            continue
+        for f in prog.funcs_named(q):
+            n += 1
+            outer = [g for g in prog.funcs if g is not f and
+                     ctx.effects.scope_kind(g) and
+                     f in ctx.cg.reachable([g])]
+            R.ob('R17.9', '%s:own-transaction' % f.qname, not outer,
+                 'no transaction scope is open around the retried function',
+                 ['%s (%s)' % (g.qname, g.loc()) for g in outer][:3] or
+                 'outermost scope on every path', func=f)
+    R.count('R17.9', n, 3)
+
+
+_run_c17d = run
+
+
+def run(ctx, R):
+    _run_c17d(ctx, R)
+    r179(ctx, R)
